@@ -294,6 +294,23 @@ func (w *world) checkOn(ch *simnode.Chain, blk *types.Block) (nb *types.Block, p
 	return
 }
 
+// checkOnLooks is checkOn with a hook between decoding and verification.
+func (w *world) checkOnLooks(ch *simnode.Chain, blk *types.Block, pre func(nb *types.Block)) (nb *types.Block, parts *types.PartSet, accepted bool, err error) {
+	nb, parts, err = overWire(blk, w.part)
+	if err != nil {
+		return nil, nil, false, err
+	}
+	if pre != nil {
+		pre(nb)
+		if w.c.Failed() {
+			return nb, parts, false, nil
+		}
+	}
+	ch.RegisterRate()
+	accepted = ch.App.CheckBlock(nb)
+	return
+}
+
 func (w *world) commitOn(ch *simnode.Chain, nb *types.Block, parts *types.PartSet) error {
 	ch.RegisterRate()
 	_, err := ch.App.CommitBlock(nb, parts, &types.Commit{}, false)
